@@ -192,6 +192,10 @@ class Builder(object):
             ]
         )
 
+        # A stop request that arrives before this pipeline begins (during
+        # start up) must not be followed by the whole crawl.
+        download_pipeline.skippable = True
+
         download_stop_pipeline = Pipeline(
             AppSource(app_session),
             [
